@@ -98,7 +98,13 @@ class DagWalker(Walker):
     def iter_walk(self, formula: FNode, **kwargs) -> Any:
         """Performs an iterative walk of the DAG"""
         self.stack.append((False, formula))
-        self._process_stack(**kwargs)
+        try:
+            self._process_stack(**kwargs)
+        except BaseException:
+            # Do not leave a half-processed traversal behind: the next
+            # walk would resume it
+            del self.stack[:]
+            raise
         res_key = self._get_key(formula, **kwargs)
         return self.memoization[res_key]
 
@@ -106,10 +112,12 @@ class DagWalker(Walker):
         if formula in self.memoization:
             return self.memoization[formula]
 
-        res = self.iter_walk(formula, **kwargs)
-
-        if self.invalidate_memoization:
-            self.memoization.clear()
+        try:
+            res = self.iter_walk(formula, **kwargs)
+        finally:
+            # The one-time cache is cleared also when the walk fails
+            if self.invalidate_memoization:
+                self.memoization.clear()
         return res
 
     def _get_key(self, formula: FNode, **kwargs) -> FNode:
